@@ -395,10 +395,26 @@ class Emit:
             return result
         s, rest = stmts[0], stmts[1:]
         tailstr = lambda: self.imp(rest, result)
+        if s[0] == "let" and self.cfg.get("unwrap_panics") and s[2][0] == "mcall" and s[2][2] in ("unwrap", "expect"):
+            # `let pat = e.unwrap();` in a function whose panics are modelled as `none`: the rest runs on `some`
+            inner = s[2][1]
+            if inner[0] == "mcall" and inner[2] == "pop" and not inner[3] and self.lhs_name(inner[1]) is not None:
+                v = self.lhs_name(inner[1])                  # `v.pop().unwrap()`: the last element, and `v` loses it
+                return "(match List.getLast? %s with\n    | some %s => (let %s := (List.dropLast %s);\n    %s)\n    | none => none)" % (v, self.pat(s[1]), v, v, tailstr())
+            return "(match %s with\n    | some %s => (%s)\n    | none => none)" % (self.e(inner), self.pat(s[1]), tailstr())
+        if s[0] == "let" and s[2][0] == "mcall" and s[2][2] in self.cfg.get("effmethods", {}) and self.lhs_name(s[2][1]) is not None:
+            # `let pat = recv.m(args);` where `m` takes `&mut self`, returns a value and may panic: `some (recv', value)` or `none`
+            v = self.lhs_name(s[2][1])
+            args = [v] + [self.atom(a) for a in s[2][3]]
+            return "(match %s with\n    | some (%s, %s) => (%s)\n    | none => none)" % (self.cfg["effmethods"][s[2][2]].format(*args), v, self.pat(s[1]), tailstr())
         if s[0] == "let":
             ty = self.mtype(s[3]) if len(s) > 3 and s[3] else None
             return "let %s%s := %s;\n    %s" % (self.pat(s[1]), " : " + ty if ty else "", self.e(s[2]), tailstr())
         x = s[1]
+        if x[0] == "assign" and x[1][0] == "mcall" and x[1][2] in self.cfg.get("setters", {}) \
+                and self.lhs_name(x[1][1]) is not None:       # `*v.attr_mut() = e` (the reader drops `*`): the place the accessor borrows is written
+            v = self.lhs_name(x[1][1])
+            return "let %s := (%s);\n    %s" % (v, self.cfg["setters"][x[1][2]].format(v, self.atom(x[2])), tailstr())
         if x[0] == "assign" and x[1][0] == "index" and x[1][2][0] == "tuple" and len(x[1][2][1]) == 2 and self.cfg.get("matrix") \
                 and self.lhs_name(x[1][1]) is not None:                        # `m[(i, j)] = v`
             v = self.lhs_name(x[1][1])
@@ -507,6 +523,8 @@ class Emit:
             return "(" + self.imp(st, self.cfg["result"]) + ")"
         if tail is None:
             raise Unsupported("imperative body without a value")
+        if "retwrap" in self.cfg:
+            return "(" + self.imp(list(stmts), self.cfg["retwrap"].format(self.e(tail))) + ")"
         return "(" + self.imp(list(stmts), self.e(tail)) + ")"
 
     # ---- bodies with early returns and `get_mut` borrows: continuation-passing translation
@@ -1240,6 +1258,43 @@ KERNELS += [
          mutmethods={"rotate_mut": "cbox_rotate_mut {0} {1}", "gen_vertices": "cbox_gen_vertices cos sin {0}"}),
 ]
 
+# ---- the SORT observation step: `SortMetric::optimize` = Kalman step (`make_prediction`) + `update_history` (C02, C07)
+OPT_STRUCT = {"Universal2DBox": ("CBox α", {"xc": "xc", "yc": "yc", "angle": "angle", "aspect": "aspect", "height": "height", "confidence": "conf", "_vertex_cache": "cache"})}
+SATTR = dict(group="Optimize", file="trackers/sort.rs", impl=r"impl TrackAttributesKalmanPrediction for SortAttributes \{",
+             fieldpath={"self.opts.position_weight": "self.position_weight", "self.opts.velocity_weight": "self.velocity_weight"})
+KERNELS += [
+    dict(group="Optimize", name="cbox_new", file="utils/bbox.rs", impl=r"impl Universal2DBox \{", fn="new", struct=OPT_STRUCT, Self="Universal2DBox",
+         field={"_vertex_cache": "cache", "confidence": "conf"}, sig="(xc yc : α) (angle : Option α) (aspect height : α) : CBox α"),
+    dict(group="Optimize", name="kstate_to_box", file="utils/kalman.rs", impl=r"impl<const X: usize> TryFrom<KalmanState<X>> for Universal2DBox \{", fn="try_from",
+         matrix=True, sig="(x : Nat) (value : KState α) : Option (CBox α)", fieldpath={"value.mean": "value.1"},
+         method={"len": "x"}, path={"Self::Error::OutOfRange": "()"},
+         call={"Err": "none", "Ok": "some {0}", "Some": "some {0}", "Universal2DBox::new": "cbox_new {0} {1} {2} {3} {4}"}),
+    dict(SATTR, name="sattr_get_state", fn="get_state", sig="(self : SAttrs α) : Option (KState α)"),
+    dict(SATTR, name="sattr_set_state", fn="set_state", sig="(self : SAttrs α) (state : KState α) : SAttrs α", imperative=True, result="self", recordvars=("self",),
+         call={"Some": "some {0}"}),
+    dict(SATTR, name="sattr_get_position_weight", fn="get_position_weight", sig="(self : SAttrs α) : α"),
+    dict(SATTR, name="sattr_get_velocity_weight", fn="get_velocity_weight", sig="(self : SAttrs α) : α"),
+    dict(group="Optimize", name="make_prediction", file="trackers/kalman_prediction.rs", impl=r"pub trait TrackAttributesKalmanPrediction \{", fn="make_prediction",
+         sig="(solveLower : {r c : Type} → [Fintype r] → [DecidableEq r] → Matrix r r α → Matrix r c α → Matrix r c α) (dt : α) (self : SAttrs α) (observation_bbox : CBox α) : Option (SAttrs α × CBox α)",
+         imperative=True, unwrap_panics=True, retwrap="some (self, {0})", recordvars=("res",), field={"confidence": "conf"},
+         method={"get_state": "sattr_get_state {0}", "get_position_weight": "sattr_get_position_weight {0}", "get_velocity_weight": "sattr_get_velocity_weight {0}",
+                 "initiate": "box_initiate {0}.1 {0}.2 (toU {1})", "predict": "box_predict (box_motion_matrix dt) {0}.1 {0}.2 {1}",
+                 "update": "box_update solveLower box_update_matrix {0}.1 {1} (toU {2})"},
+         call={"Universal2DBoxKalmanFilter::new": "(({0}, {1}) : α × α)", "Universal2DBox::try_from": "kstate_to_box 10 {0}"},
+         selfmut={"set_state": ("self", "sattr_set_state self {0}")}),
+    dict(group="Optimize", name="sort_optimize", file="trackers/sort/metric.rs", impl=r"impl ObservationMetric<SortAttributes, Universal2DBox> for SortMetric \{", fn="optimize",
+         sig="{F : Type} (solveLower : {r c : Type} → [Fintype r] → [DecidableEq r] → Matrix r r α → Matrix r c α → Matrix r c α) (dt : α) (cos sin : α → α) (method : PosMetric α)\n    (attrs : SAttrs α) (features : List (Option (CBox α) × F)) : Option (SAttrs α × List (Option (CBox α) × F))",
+         imperative=True, unwrap_panics=True, result="some (attrs, features)", fieldpath={"self.method": "method"},
+         method={"attr": "{0}.1", "as_ref": "{0}"}, call={"Some": "some {0}"},
+         pctor={"PositionalMetricType::Mahalanobis": "PosMetric.maha", "PositionalMetricType::IoU": "PosMetric.iou"},
+         effmethods={"make_prediction": "make_prediction solveLower dt {0} {1}"}, setters={"attr_mut": "({1}, {0}.2)"},
+         mutmethods={"clear": "[]", "gen_vertices": "cbox_gen_vertices cos sin {0}",
+                     "update_history": "applyHist {0} (SimVerif.Gen.L.sort_update_history {0}.history_length {0}.track_length {0}.observed_boxes {0}.predicted_boxes {1} {2})"}),
+    dict(group="Optimize", name="sort_postprocess_distances", file="trackers/sort/metric.rs", impl=r"impl ObservationMetric<SortAttributes, Universal2DBox> for SortMetric \{",
+         fn="postprocess_distances", sig="{M : Type} (unfiltered : List (MOk M)) : List (MOk M)",
+         method={"into_iter": "{0}", "filter": "List.filter {1} {0}", "collect": "{0}", "is_some": "Option.isSome {0}"}),
+]
+
 IDLE = [
     dict(group="Idle", name="idle_lookup_" + nm, file=f, impl=impl, fn="lookup",
          sig="(epochs : Option (List (Nat × Nat))) (maxIdle : Nat) (self : Nat) (attr_scene attr_last : Nat) : Bool",
@@ -1573,16 +1628,37 @@ def dedupBy {α : Type} (same : α → α → Bool) : List α → List α
   | a :: rest => a :: dedupByAux same a rest
 """
 # group -> (file, configs, header, namespace)
-K_GROUPS = ["Radius", "Box", "Inter", "Dist", "Kalman", "SMetric", "VMetric", "Clip", "Feat", "Cache"]
+K_GROUPS = ["Radius", "Box", "Inter", "Dist", "Kalman", "SMetric", "VMetric", "Clip", "Feat", "Cache", "Optimize"]
 POSMETRIC = """/-- `PositionalMetricType` -/
 inductive PosMetric (α : Type) where
   | maha
   | iou (thr : α)
 """
-K_IMPORTS = {"Cache": "import SimVerif.Gen.KBox\nimport SimVerif.Gen.KInter\nimport SimVerif.Gen.KClip\n", "Feat": "import SimVerif.Model.Feature\n", "Clip": "import SimVerif.Gen.KInter\n", "Inter": "import SimVerif.Gen.KRadius\n", "Dist": "import SimVerif.Gen.KRadius\n",
+K_IMPORTS = {"Optimize": "import SimVerif.Gen.KCache\nimport SimVerif.Gen.KKalmanMat\nimport SimVerif.Gen.KSMetric\nimport SimVerif.Gen.LAttr\n", "Cache": "import SimVerif.Gen.KBox\nimport SimVerif.Gen.KInter\nimport SimVerif.Gen.KClip\n", "Feat": "import SimVerif.Model.Feature\n", "Clip": "import SimVerif.Gen.KInter\n", "Inter": "import SimVerif.Gen.KRadius\n", "Dist": "import SimVerif.Gen.KRadius\n",
              "SMetric": "import SimVerif.Gen.KInter\nimport SimVerif.Gen.KKalman\n",
              "VMetric": "import SimVerif.Gen.KSMetric\nimport SimVerif.Gen.KRadius\nimport SimVerif.Model.VisualMetric\n"}
-K_PRELUDE = {"Cache": """/-- `Universal2DBox` with its private vertex cache -/
+PRELUDE_OPT = """/-- `KalmanState<10>`: mean and covariance -/
+abbrev KState (α : Type) := Matrix (Fin 5 ⊕ Fin 5) (Fin 1) α × Matrix (Fin 5 ⊕ Fin 5) (Fin 5 ⊕ Fin 5) α
+/-- the fields of `SortAttributes` the observation step reads or writes (`opts` flattened; epoch, scene and custom id are not touched by it) -/
+structure SAttrs (α : Type) where
+  predicted_boxes : List (CBox α)
+  observed_boxes : List (CBox α)
+  track_length : Nat
+  state : Option (KState α)
+  position_weight : α
+  velocity_weight : α
+  history_length : Nat
+/-- write back the places `update_history` assigns -/
+def applyHist (a : SAttrs α) (r : Nat × List (CBox α) × List (CBox α)) : SAttrs α :=
+  { a with track_length := r.1, observed_boxes := r.2.1, predicted_boxes := r.2.2 }
+/-- `ObservationMetricOk` -/
+structure MOk (M : Type) where
+  from_ : Nat
+  to_ : Nat
+  attribute_metric : Option M
+  feature_distance : Option M
+"""
+K_PRELUDE = {"Optimize": PRELUDE_OPT, "Cache": """/-- `Universal2DBox` with its private vertex cache -/
 structure CBox (α : Type) where
   xc : α
   yc : α
